@@ -105,10 +105,10 @@ def run(run, replay=None):
                 # non-conjugating entries only: their reading is itself a key of the built dictionary
                 if l.count("\t") == 2 and l.split("\t")[2] in ("/一般名詞/", "/サ変名詞/", "/固有名詞/", "/副詞/", "/感動詞/", "/接続詞/", "/連体詞/", "/助数詞/"):
                     probes.append(l.split("\t")[0])
-        q = ["bdump std", "bdump anc", "bdump tankan"] + ["bhas std " + cl.cps(k) for k in probes[:40]] + \
+        q = ["bdump std", "bdump anc", "bdump tankan", "bstruct std", "bstruct anc"] + ["bhas std " + cl.cps(k) for k in probes[:40]] + \
             ["kcands normal 100000 " + cl.cps(k) for k in probes[:25]] + ["btankan " + cl.cps(k) for k in probes[:10]]
         impl_lines += ["bload " + cl.cps(out)] + q
-        model_lines += ["bbuild %s | %s | %s" % (cl.cps(std), cl.cps(anc), cl.cps(tk))] + q
+        model_lines += ["bbuild %s | %s | %s" % (cl.cps(std), cl.cps(anc), cl.cps(tk))] + [x if not x.startswith("bstruct") else "bdump tankan" for x in q]
         cases.append((n, std, anc, tk, len(q) + 1))
     rc, o, e = run.run_harness(hb, "impl_driver", input="\n".join(impl_lines) + "\n", timeout=3600)
     impl = o.splitlines()
@@ -119,7 +119,7 @@ def run(run, replay=None):
         return
     if model is not None:
         for l, a, b in zip(impl_lines, impl, model):
-            if a != b:
+            if a != b and not l.startswith("bstruct"):
                 dis.append({"request": l[:60], "impl": a[:300], "model": b[:300]})
     # oracle on the implementation: every accepted word is in the loaded map and (if spelled in the alphabet) in the trie;
     # nothing else is there.  Expected words come from the real reader + the real conjugation (harness).
@@ -175,6 +175,16 @@ def run(run, replay=None):
             pass
         qlines = impl_lines[pos - nq:pos]
         for l, r in zip(qlines, chunk):
+            if l.startswith("bstruct ") and r.startswith("ok size="):
+                # the loaded trie must be a sound double array: in particular its free-slot set is exactly the unused slots,
+                # or the next insertion (user dictionary merge, registration) overwrites words of the image
+                from props import c04 as C04
+                slots_, free_ = C04.parse_dump(r[3:])
+                why_ = C04.structure_ok(slots_, free_, 255)
+                stats["tries_checked"] = stats.get("tries_checked", 0) + 1
+                if why_:
+                    fails.append(("loaded-trie-unsound", {"kind": "loaded-trie-unsound"},
+                                  {"dictionary": l.split(" ")[1], "entries": n, "invariant": why_, "slots": len(slots_), "free_listed": len(free_)}))
             if l.startswith("bhas std "):
                 key = cl.from_cps(l[9:])
                 should = all(c in ALPHA for c in key)
